@@ -50,8 +50,33 @@ def run(P, R, tier):
         R.check(cw.calls_any("bincount") and any(x.endswith("sum") for x in cw.calls), "DEP.weights", f.key, f"weights = {src(w)}", "assigned fraction: count / total", "cluster weights are not the fraction of samples assigned to each cluster", r.lineno)
         R.check(cv.calls_any("bincount"), "DEP.variances", f.key, f"variances = {src(v)}", "normalised by the cluster count", "cluster variances are not normalised by the cluster count", r.lineno)
     check_reduce_cover(P, R)
+    check_accumulator_allocation(P, R)
     # GMM initialisation from the k-means result
     _rest(P, R)
+
+
+def check_accumulator_allocation(P, R, rule="DTYPE.accumulator"):
+    """Arrays that receive per-cluster sums of the data are allocated as float arrays of the data's kind, not with the dtype of
+    the centroids (integer / float32 centroids would truncate or round every per-block sum)."""
+    for key in ("kmeans:accumulate_indices_means_vars", "kmeans:e_step"):
+        f = P.func(key)
+        du = get_defuse(f, P)
+        dp, mp = f.value_params[:2]
+        filled = set()
+        for st, t, v, k in stores(f):
+            if isinstance(t, ast.Subscript) and isinstance(t.value, ast.Name) and v is not None:
+                c = cone(du, v, du.stmt_of(st), interproc=False)
+                if dp in c.params and c.calls_any("sum"):
+                    filled.add(t.value.id)
+        for st, t, v, k in stores(f):
+            if isinstance(t, ast.Name) and t.id in filled and isinstance(v, ast.Call):
+                fn = src(v.func).split(".")[-1]
+                if fn in ("zeros", "empty", "full", "zeros_like", "empty_like", "full_like", "ones_like"):
+                    like_means = fn.endswith("_like") and v.args and isinstance(v.args[0], ast.Name) and v.args[0].id == mp
+                    dt = next((k_.value for k_ in v.keywords if k_.arg == "dtype"), None)
+                    dt_means = dt is not None and mp in {n.id for n in ast.walk(dt) if isinstance(n, ast.Name)}
+                    int_dtype = dt is not None and src(dt) in ("int", "np.int64", "np.int32", "np.float32", "'float32'", "'int'")
+                    R.check(not (like_means or dt_means or int_dtype), rule, key, f"{t.id} = {src(v)[:60]}", "float accumulator independent of the centroids' dtype", f"the accumulator `{t.id}` takes its dtype from the centroids `{mp}` (or a narrow dtype): with integer or float32 centroids every per-block sum is truncated/rounded, and the result depends on the chunking", st.lineno)
 
 
 def check_reduce_cover(P, R):
